@@ -128,7 +128,7 @@ ALL_MENU = (
     "ins:raise", "ins:probe", "ins:res", "ins:mkitem", "ins:mkchild", "ins:sync", "ins:iv", "ins:yempty", "ins:ynone",
     "wrap:try", "wrap:A", "wrap:N", "wrap:S0", "wrap:S1", "wrap:P0", "wrap:Xp", "wrap:Xr", "wrap:Xq",
     "flush:raise", "flush:raiseB", "flush:new", "flush:setraise", "flush:nested",
-    "leaf:dd", "ins:ddirty", "item:errf", "ins:caught", "leaf:cw", "wrap:ovl", "leaf:bt",
+    "leaf:dd", "ins:ddirty", "item:errf", "ins:caught", "leaf:cw", "wrap:ovl", "leaf:bt", "ins:cancel",
 )
 DD_ALTS = (("f", 1, "pos"), ("f", 1, "kw"), ("f", 1, "def"), ("f", 2, "pos"), ("g", 1, "pos"),
            ("mx", 1, "pos"), ("mx", 1, "mix"), ("my", 1, "pos"), ("s", 1, "pos"), ("sx", 1, "def"), ("h", 1, "pos"),
@@ -268,6 +268,9 @@ def _block_variants(stmts, ctx, allow_shared, made_before):
         ins.append(("y", ("D", ())))
     if "ins:ynone" in menu:
         ins.append(("y", ("n",)))
+    if "ins:cancel" in menu:
+        ins.append(("cancel", "a"))
+        ins.append(("cancel", "b"))
     if "ins:caught" in menu:
         ins.append(("try", (("y", ("ef",)),), ()))
     if "ins:ddirty" in menu:
